@@ -37,6 +37,33 @@ def rdb_hostile(rng, i):
         ops += [f"mount 0 {p} 1", f"list 0 {p} 1", f"free 0 {p}", f"open 1 0 {p} {hx(b'f')} 1", "read 1 50000", "seek 1 39999", "read 1 10", "close 1", f"unmount 0 {p}"]
     return ops + ["closedev 0"]
 
+def dircycle_big(exe, rng, i):
+    """a volume of 30000-70000 blocks with a directory that reappears further down one of its own hash chains: the
+    recursive listing must give up (budget / 512 levels), not recurse until the stack is exhausted"""
+    import struct, fsck
+    hx = gen.hx
+    n = rng.choice([30000, 65536, 70000]); dt = rng.choice([0, 1, 3])
+    pre = [f"newdev 0 {n} 1 1", "clock 2021 3 3 3 3 3", f"mkhdf 0 {hx(b'deep')} {dt}", "mount 0 0 0",
+           f"mkdir 0 0 {hx(b'D')}", f"chdir 0 0 {hx(b'D')}", f"mkdir 0 0 {hx(b'F')}", f"open 1 0 0 {hx(b'x')} 2", "write 1 100 1", "close 1", "unmount 0 0"]
+    p = os.path.join(vlib.scratch(), f"c10deep_{i}.img")
+    vlib.run_c(exe, pre + [f"dumpimg 0 {p}", "closedev 0"], timeout=120)
+    with open(p, "rb") as fh: img = fh.read()
+    os.unlink(p)
+    f = fsck.fsck_image(img, 0, n, want_data=False)
+    D = next((k for k in f.root.kids.values() if k.name == b"D"), None) if f.root else None
+    F = next((k for k in D.kids.values() if k.name == b"F"), None) if D else None
+    if not F: return None
+    # F.nextSameHash := D  (F is inside D: D reappears as a chain member of its own child list), checksum re-fixed
+    blk = bytearray(img[F.block * 512:(F.block + 1) * 512])
+    struct.pack_into(">I", blk, 0x1f0, D.block)
+    struct.pack_into(">I", blk, 20, 0)
+    s = sum(struct.unpack(">128I", blk)) & 0xffffffff
+    struct.pack_into(">I", blk, 20, (-s) & 0xffffffff)
+    off = F.block * 512
+    muts = [f"pokeimg 0 {off + 0x1f0} {blk[0x1f0:0x1f4].hex()}", f"pokeimg 0 {off + 20} {blk[20:24].hex()}"]
+    return pre + ["closedev 0"] + muts + ["opendev 0 1", "mount 0 0 1", "list 0 0 1", "list 0 0 0", "unmount 0 0", "closedev 0"]
+
+
 def run(res):
     res.cov["rule"] = ("images by the independent writer with 1,1,2,3 or 5 metadata fields (types, keys, counts, sizes, pointers, lengths, record bytes, bitmap pointers) "
                        "replaced by 0,1,2,-1,-2,self,root,other metadata block,n-1,n,n+1,2^31-1,2^31,random (80% with the checksum re-fixed); "
@@ -52,6 +79,12 @@ def run(res):
         cb, paths, tie, san, crash, fault = hist.run_plain(exe, ops)
         return dict(ops=ops, cb=cb, tie=tie, san=san, crash=crash, fault=fault)
     with ThreadPoolExecutor(12) as ex: rdb = list(ex.map(one, range(max(n // 3, 76))))
+    # a directory that reappears in a hash chain of its own children on a volume of 30000-70000 blocks: deep recursion
+    for i in range(3 if res.tier == "quick" else 30):
+        o = dircycle_big(exe, vlib.rng_for(res.seed, f"C10deep/{i}"), i)
+        if o:
+            cb, paths, tie, san, crash, fault = hist.run_plain(exe, [f"readlimit {4 * 70000}"] + o, timeout=180)
+            rdb.append(dict(ops=o, cb=cb, tie=tie, san=san, crash=crash, fault=fault))
     bad, ties = [], []
     for r in results:
         res.note_case(("img", tuple(r["muts"])), None)
